@@ -556,13 +556,10 @@ Section Reify.
                               | TStruct _ | TMap _ =>
                                 (* reifyInto with the whole config: the field's own validators
                                    are not handed on *)
-                                match ft, x with
-                                | TPtr _, GPtrNil => OutOfModel      (* inline of a nil pointer *)
-                                | _, _ =>
-                                  y <- reify_merge_value f (o', th, []) ft x cfg ;;
-                                  (* the field's validate tag applies to what was unpacked into it (fix F37) *)
-                                  _ <- run_validators (r_vo o) vts (view y) ;; Ok y
-                                end
+                                (* (a nil pointer is allocated: fix F67) *)
+                                y <- reify_merge_value f (o', th, []) ft x cfg ;;
+                                (* the field's validate tag applies to what was unpacked into it (fix F37) *)
+                                _ <- run_validators (r_vo o) vts (view y) ;; Ok y
                               | TSlice _ | TArray _ _ => reify_merge_value f (o', th, vts) ft x cfg
                               | _ => Err ETypeMismatch ""
                               end
